@@ -168,15 +168,44 @@ def check(chk):
             for k_, a_ in enumerate(c_.args):
                 if src(a_) == 'args' and k_ < len(params_):
                     stack_names.setdefault(id(callee), set()).add(params_[k_])
-    enc = [(fn_, n) for fn_ in scopes_ for n in body_walk(fn_) if isinstance(n, ast.Assign) and src(n.targets[0]) == 'enclosing']
-    enc_names = stack_names.get(id(enc[0][0]), set()) if len(enc) == 1 else set()
-    enc = [n for _f, n in enc]
+    # the subject of the vector test - issubclass(X, VectorType) - traced back through temporaries, helper parameters and helper results to the stack slot it is read from
+    from ..sem import resolve as _resolve
+
+    def _trace(fn_, e, depth=4):
+        e = _resolve(fn_, e, loops=True, keep=stack_names.get(id(fn_), ()))
+        if isinstance(e, ast.IfExp):
+            return _trace(fn_, e.body, depth) + _trace(fn_, e.orelse, depth)
+        if isinstance(e, ast.Constant) and e.value is None:
+            return []
+        if depth and isinstance(e, ast.Name) and fn_ is not pa and e.id in [a_.arg for a_ in fn_.args.args]:
+            k_ = [a_.arg for a_ in fn_.args.args].index(e.id)
+            out = []
+            for caller in scopes_:
+                for c_ in body_walk(caller):
+                    if isinstance(c_, ast.Call) and isinstance(c_.func, ast.Name) and c_.func.id == fn_.name and k_ < len(c_.args):
+                        out.extend(_trace(caller, c_.args[k_], depth - 1))
+            return out or [(fn_, e)]
+        if depth and isinstance(e, ast.Call) and isinstance(e.func, ast.Name) and mod.has(e.func.id) and mod.get(e.func.id) in scopes_[1:]:
+            h_ = mod.get(e.func.id)
+            out = []
+            for r_ in body_walk(h_):
+                if isinstance(r_, ast.Return) and r_.value is not None:
+                    out.extend(_trace(h_, r_.value, depth - 1))
+            return out
+        return [(fn_, e)]
+    subjects = [(fn_, c_.args[0]) for fn_ in scopes_ for c_ in body_walk(fn_) if isinstance(c_, ast.Call) and src(c_.func) == 'issubclass' and len(c_.args) == 2 and src(c_.args[1]) == 'VectorType']
+    leaves = [lf for fn_, e_ in subjects for lf in _trace(fn_, e_)]
     appl = [n for n in body_walk(pa) if isinstance(n, ast.Assign) and isinstance(n.targets[0], ast.Subscript) and isinstance(n.value, ast.Call) and src(n.value.func).endswith('.apply_parameters')]
-    ok = len(enc) == 1 and len(appl) == 1
+    ok = bool(leaves) and len(appl) == 1
     if ok:
-        subs = [x for x in ast.walk(enc[0].value) if isinstance(x, ast.Subscript) and isinstance(x.value, ast.Subscript) and isinstance(x.value.value, ast.Subscript) and src(x.value.value.value) in enc_names]
+        for fn_, e_ in leaves:
+            names_ = stack_names.get(id(fn_), set())
+            x = e_
+            good_leaf = isinstance(x, ast.Subscript) and isinstance(x.value, ast.Subscript) and isinstance(x.value.value, ast.Subscript) and src(x.value.value.value) in names_ and \
+                (last_index(x.value.value), last_index(x.value), last_index(x)) == (-2, 0, -1)
+            ok = ok and good_leaf
         closing = (last_index(appl[0].targets[0]), src(appl[0].targets[0].value), src(appl[0].value.func.value))
-        ok = len(subs) == 1 and (last_index(subs[0].value.value), last_index(subs[0].value), last_index(subs[0])) == (-2, 0, -1) and closing[0] == -1 and closing[2] == '%s[-1]' % closing[1]
+        ok = ok and closing[0] == -1 and closing[2] == '%s[-1]' % closing[1]
     chk.judge(ok, 'C28.parse', pa, 'the enclosing type of a parameter is the last type of the parent level - the same slot `)` applies the parameters to',
               'the type consulted for "is this a vector dimension?" is not the one the parameters are applied to on `)`: a vector that is not the first parameter of its parent keeps its dimension unparsed, '
               'and a digit-only name after a vector sibling is read as a number')
